@@ -629,6 +629,8 @@ impl DhtHandler {
         announce: bool,
         tx: mpsc::UnboundedSender<SocketAddr>,
     ) {
+        // the handler is driven as if the initial bootstrap had completed
+        self.bootstrapped_once = true;
         self.handle_start_lookup(StartLookup {
             info_hash,
             announce,
